@@ -36,14 +36,20 @@ MARK_LINES = ["\u0633\u0644\u0627\u0645 \\*[ab \u06af\u0644 cd] \u062f\u0646\u06
               "\u0633\u0644 \\*[ab] \\*[cd \u06af\u0644] \u062f", "\u0633\u0644\u0627\u0645 `ab cd' \u062f", "x \\*[\u06af\u0644] $a$ \\y{\u062f\u0646}"]
 
 
-def mark_tables(ctx, nopt):
-    """lines with nested direction marks (mode marklist of Gen_Layout), nopt option combinations each"""
+# pure-ASCII lines: in a right-to-left context (forced, or by default for a line that begins with no letter) their Latin runs are
+# the opposite-direction runs and appear reversed in place
+LATIN_LINES = [" abc def", "(ab) cd", "-ab", " a", ". ab1 cd", "ab cd", "  ab", "(a) (bc) d", "1 ab", "_x yz", "ab", "a b c", "!ab cd! ef", " ab\tcd"]
+
+
+def mark_tables(ctx, nopt, lines=None, tag="marklines"):
+    """given lines (default: those with nested direction marks) through mode marklist of Gen_Layout, nopt option combinations each"""
     env, info = lib_env(ctx)
     jobs = []
-    per = max(1, (len(MARK_LINES) + NCPU - 1) // NCPU)
-    for i in range(0, len(MARK_LINES), per):
-        f = ctx.path("gen", "marklines_%d.ndjson" % i)
-        open(f, "w").write("".join(json.dumps([ord(c) for c in x]) + "\n" for x in MARK_LINES[i:i + per]))
+    lines = MARK_LINES if lines is None else lines
+    per = max(1, (len(lines) + NCPU - 1) // NCPU)
+    for i in range(0, len(lines), per):
+        f = ctx.path("gen", "%s_%d.ndjson" % (tag, i))
+        open(f, "w").write("".join(json.dumps([ord(c) for c in x]) + "\n" for x in lines[i:i + per]))
         jobs.append(dict(MODE="marklist", IDXFILE=f, NOPT=nopt, **env))
     cases = []
     for job, path in gen_tables(ctx, jobs, module="Gen_Layout", timeout=2400):
